@@ -116,7 +116,7 @@ def r3(c):
     okl = ln.kind == 'call' and ln.cs.callee == 'alloc::vec::Vec::len' and q.is_name(b, ln.cs.args[0], 'values')
     c.ob('count-from-len', okl, 'the count is u16::try_from(values.len())', repr(ln), u.loc())
     s1 = q.sem(b, tf.args[1])
-    c.ob('count-flow', s1.kind == 'call' and s1.cs is u and ':Ok' in ''.join(s1.proj), 'try_from receives exactly that count', repr(s1), tf.loc())
+    c.ob('count-flow', s1.kind == 'call' and s1.cs is u and q.has_success(s1.proj), 'try_from receives exactly that count', repr(s1), tf.loc())
     c.ob('start-flow', q.is_name(b, tf.args[0], 'start'), 'try_from receives the start parameter', '', tf.loc())
     ag = [s for _, s in b.aggregates(WM)]
     ok = len(ag) == 1
@@ -262,7 +262,7 @@ def r6(c):
         nw = one(b.calls(ctor), ctor)
         rs = q.sem(b, nw.args[0])
         lim = 'of_read_bits' if 'bits' in helper else 'of_read_registers'
-        okr = rs.kind == 'call' and rs.cs.callee.endswith(lim) and q.is_name(b, rs.cs.args[0], 'range') and (rs.checked or ':Ok' in ''.join(rs.proj))
+        okr = rs.kind == 'call' and rs.cs.callee.endswith(lim) and q.is_name(b, rs.cs.args[0], 'range') and (rs.checked or q.has_success(rs.proj))
         ind = [cs for cs in b.calls() if (cs.declared or '').startswith('core::ops::function::Fn') and q.is_name(b, cs.args[0], 'wrap_req')]
         okw = len(ind) == 1 and nw.block in {x[2] for x in b.op_closure(ind[0].args[1]) if x[0] == 'call'}
         c.ob('helper/%s/%s' % (fl.rsplit('::', 1)[-1], helper), okr and okw, 'the helper wraps the range that passed %s with the given constructor' % lim, repr(rs), nw.loc())
